@@ -29,7 +29,7 @@ func TestC05(t *testing.T) {
 	placements := []string{"frame-reverts-after-call", "parent-reverts-after-child-returned", "invalid-after-call", "out-of-gas-after-call", "top-level-revert", "precompile-runs-out-of-gas", "precompile-errors-after-partial-writes"}
 	methods := pcMethods()
 	idx := 0
-	reps := r.Pick(2, 40)
+	reps := r.Cases(2, 40)
 	for rep := 0; rep < reps; rep++ {
 		for _, pl := range placements {
 			for mi := range methods {
@@ -48,7 +48,7 @@ func TestC05(t *testing.T) {
 	// (a') EVM state written before a precompile call inside a frame that then fails: every
 	// stateful precompile flushes the StateDB into the store when it starts
 	fidx := 0
-	for rep := 0; rep < r.Pick(3, 40); rep++ {
+	for rep := 0; rep < r.Cases(3, 40); rep++ {
 		for _, v := range c05FlushVariants {
 			for _, q := range []string{"staking.delegation(query)", "distribution.delegatorWithdrawAddress(query)", "bank.balances(query)", "staking.delegate(tx)"} {
 				for _, endKind := range []string{"revert", "invalid", "out-of-gas"} {
@@ -64,7 +64,7 @@ func TestC05(t *testing.T) {
 	}
 	// (a'') several precompile calls in one transaction, some in frames that fail: what remains must
 	// be exactly the effect of the native messages of the surviving calls, in order
-	for g := 0; g < r.Pick(48, 1200); g++ {
+	for g := 0; g < r.Cases(48, 1200); g++ {
 		id := fmt.Sprintf("multi/%d", g)
 		fidx++
 		if !r.Want(id, fidx) {
@@ -73,7 +73,7 @@ func TestC05(t *testing.T) {
 		c05Multi(r, id)
 	}
 	// (a3) an ICS-20 transfer through the precompile, over a real (loopback) channel, in a frame that fails
-	for rep := 0; rep < r.Pick(2, 30); rep++ {
+	for rep := 0; rep < r.Cases(2, 30); rep++ {
 		for _, endKind := range []string{"revert", "invalid", "out-of-gas", "parent-reverts", "none"} {
 			for _, who := range []string{"contract-with-grant-spends-signer-funds", "contract-spends-own-funds"} {
 				id := fmt.Sprintf("ics20/%s/%s/%d", endKind, who, rep)
@@ -86,7 +86,7 @@ func TestC05(t *testing.T) {
 		}
 	}
 	// (a4) an account first seen by the EVM inside the failed frame, after the precompile credited it
-	for rep := 0; rep < r.Pick(4, 60); rep++ {
+	for rep := 0; rep < r.Cases(4, 60); rep++ {
 		for _, endKind := range []string{"revert", "invalid", "out-of-gas"} {
 			id := fmt.Sprintf("lateload/%s/%d", endKind, rep)
 			fidx++
@@ -97,7 +97,7 @@ func TestC05(t *testing.T) {
 		}
 	}
 	// (b) EVM-only failing frames (storage, balances, logs, creates, self-destructs) vs go-ethereum
-	np := r.Pick(96, 4800)
+	np := r.Cases(96, 4800)
 	for g := 0; g < np; g++ {
 		id := fmt.Sprintf("evm/%d", g)
 		if !r.Want(id, g) {
